@@ -90,9 +90,37 @@ namespace bloch::compiler {
         auto skipTypeArgs = [&](size_t& i) {
             if (i + 1 >= m_tokens.size() || m_tokens[i + 1].type != TokenType::Less)
                 return;
+            // Only tokens that can occur in a type-argument list may be skipped; anything else
+            // (an operator, a parenthesis, a ';', a non-integer literal) means the '<' is a comparison,
+            // and the scan must not run on into later statements or declarations.
+            auto canAppearInTypeArgs = [](TokenType t) {
+                switch (t) {
+                    case TokenType::Identifier:
+                    case TokenType::Dot:
+                    case TokenType::Comma:
+                    case TokenType::Less:
+                    case TokenType::Greater:
+                    case TokenType::LBracket:
+                    case TokenType::RBracket:
+                    case TokenType::IntegerLiteral:
+                    case TokenType::Int:
+                    case TokenType::Long:
+                    case TokenType::Float:
+                    case TokenType::Bit:
+                    case TokenType::Boolean:
+                    case TokenType::String:
+                    case TokenType::Char:
+                    case TokenType::Qubit:
+                        return true;
+                    default:
+                        return false;
+                }
+            };
             int depth = 0;
             size_t j = i + 1;
             while (j < m_tokens.size()) {
+                if (!canAppearInTypeArgs(m_tokens[j].type))
+                    return;
                 if (m_tokens[j].type == TokenType::Less)
                     depth++;
                 else if (m_tokens[j].type == TokenType::Greater) {
